@@ -4,15 +4,24 @@ From C09 Require Import Model Proofs.
 Local Open Scope Z_scope.
 
 (* ---- checked helper = unchecked helper whenever the checked one does not stop the program ---- *)
+(* idiv_helper / imod_helper = the helper bodies with the `b == -1` line where cbuiltins.lua emits it
+   (scraped into Gen.v): if the guard is moved into the checked branch these proofs break *)
 Theorem C09_idiv_checked_eq_unchecked : forall m t a b,
-  h_idiv m t true a b <> OPanic -> h_idiv m t true a b = h_idiv m t false a b.
-Proof. exact idiv_checked_eq. Qed.
+  idiv_helper m t true a b <> OPanic -> idiv_helper m t true a b = idiv_helper m t false a b.
+Proof. exact idiv_helper_checked_eq. Qed.
 Print Assumptions C09_idiv_checked_eq_unchecked.
 
 Theorem C09_imod_checked_eq_unchecked : forall m t a b,
-  h_imod m t true a b <> OPanic -> h_imod m t true a b = h_imod m t false a b.
-Proof. exact imod_checked_eq. Qed.
+  imod_helper m t true a b <> OPanic -> imod_helper m t true a b = imod_helper m t false a b.
+Proof. exact imod_helper_checked_eq. Qed.
 Print Assumptions C09_imod_checked_eq_unchecked.
+
+(* the b == -1 path explicitly: every variant returns the wrapped quotient / 0 at MIN, -1 *)
+Theorem C09_unchecked_min_neg1 : forall t, In t signed_types ->
+  idiv_helper base_mode t false (imin t) (-1) = ORet (imin t) /\ imod_helper base_mode t false (imin t) (-1) = ORet 0 /\
+  idiv_helper base_mode t true (imin t) (-1) = ORet (imin t) /\ imod_helper base_mode t true (imin t) (-1) = ORet 0.
+Proof. exact unchecked_min_neg1. Qed.
+Print Assumptions C09_unchecked_min_neg1.
 
 Theorem C09_narrow_checked_eq_unchecked : forall st dt x f,
   (h_narrow_int st dt true x <> OPanic -> h_narrow_int st dt true x = h_narrow_int st dt false x) /\
